@@ -21,11 +21,11 @@ var (
 	DeadlineExceeded = context.DeadlineExceeded
 )
 
-func Background() Context                                  { return context.Background() }
-func TODO() Context                                        { return context.TODO() }
-func WithValue(parent Context, key, val any) Context       { return context.WithValue(parent, key, val) }
-func WithoutCancel(parent Context) Context                 { return context.WithoutCancel(parent) }
-func AfterFunc(ctx Context, f func()) (stop func() bool)   { return context.AfterFunc(ctx, f) }
+func Background() Context                                { return context.Background() }
+func TODO() Context                                      { return context.TODO() }
+func WithValue(parent Context, key, val any) Context     { return context.WithValue(parent, key, val) }
+func WithoutCancel(parent Context) Context               { return context.WithoutCancel(parent) }
+func AfterFunc(ctx Context, f func()) (stop func() bool) { return context.AfterFunc(ctx, f) }
 
 func Cause(c Context) error {
 	vsched.Point("ctx.Cause", nil)
